@@ -317,6 +317,10 @@ impl Checker {
                     })
                     .unwrap_or(false);
                 let mut off_chain = false;
+                // does every proven header already lie on the banned peer's branch *only* (above
+                // the point where any other branch leaves it)? Then the client has seen the switch
+                // for every peer, and nothing of the abandoned branch may be held against an answer
+                let mut all_show_the_fork = true;
                 for (s2, _) in sim.sessions.iter() {
                     let proven = c
                         .peers
@@ -328,13 +332,31 @@ impl Checker {
                             if !sim.world.is_ancestor_or_self(*id, tip_id) {
                                 off_chain = true;
                             }
+                            for b2 in 0..sim.world.branches.len() {
+                                if b2 != view.branch {
+                                    let other_tip = *sim.world.branches[b2].ids.last().expect("branch has a genesis");
+                                    if sim.world.is_ancestor_or_self(*id, other_tip) {
+                                        all_show_the_fork = false;
+                                    }
+                                }
+                            }
                         }
                     }
                 }
                 // ... or the filter hashes agreed on so far reach above a fork point that the
                 // proven headers do not show yet: a peer switched branches a moment ago
+                // ... and do all connected peers follow one chain now? (a peer that is still on -
+                // or already on - another branch feeds the agreed filter hashes from there)
+                let mut views_disagree = false;
+                for q in sim.peers.iter().filter(|q| q.session.is_some()) {
+                    let a = sim.world.branches[q.view.branch].ids[q.view.height as usize];
+                    let b = sim.world.branches[view.branch].ids[view.height as usize];
+                    if !sim.world.is_ancestor_or_self(a, b) && !sim.world.is_ancestor_or_self(b, a) {
+                        views_disagree = true;
+                    }
+                }
                 if let Some(t) = sim.last_reorg_at {
-                    if sim.now < t + 120_000 {
+                    if sim.now < t + 120_000 && (!all_show_the_fork || views_disagree) {
                         off_chain = true;
                     }
                 }
@@ -391,6 +413,18 @@ impl Checker {
                         }
                     }
                 }
+            }
+            // C04 ("... and sync resumes"): after a fork switch that the client has seen for every
+            // peer, an honest filter answer from the new chain must be accepted
+            if filter_kind && !clause.contains("during_reorg_window") && sim.last_reorg_at.is_some() && sim.taint.is_none() {
+                sim.violate(
+                    "C04",
+                    "honest_filter_answer_rejected_after_the_fork_switch",
+                    format!(
+                        "all connected peers follow one chain and every proven header lies on it, yet s{} is banned for its filter answer: {}",
+                        session, reason
+                    ),
+                );
             }
             self.last_honest_ban = Some(sim.now);
             sim.violate(
